@@ -70,6 +70,24 @@ def _canon_parents(expr, nodevar):
     return re.sub(r"\b%s\b" % re.escape(nodevar), "NODE", norm(expr, 400))
 
 
+def counts_primitive(rc, repo):
+    """BaseEstimator.state_counts: the conditional count table is `groupby([variable] + parents, observed=True)` — for categorical columns only the
+    OBSERVED combinations become columns (the scores' "observed parent configurations" is the number of columns of this table; the estimators re-index
+    to the declared product afterwards).  Another counting primitive (value_counts, crosstab, groupby without observed=True) changes which columns exist."""
+    f = repo.func(EB, "BaseEstimator.state_counts")
+    gbs = [c for c in repo.calls_in(f) if call_name(c) == "groupby"]
+    with_par = [c for c in gbs if c.args and "parents" in norm(c.args[0])]
+    rc.ob(f"state_counts: conditional counts from {[norm(c, 70) for c in with_par]}")
+    if len(with_par) < 2:
+        rc.fail(f, f.node, "the conditional count table (weighted and unweighted) must be built by groupby([variable] + parents, observed=True): with another primitive the set of "
+                "columns (observed parent configurations) differs for categorical data", construct="conditional counts primitive")
+    for c in gbs:
+        ob = kwarg(c, "observed")
+        if not (isinstance(ob, ast.Constant) and ob.value is True):
+            rc.fail(f, c, f"`{norm(c, 70)}` must pass observed=True: for categorical columns unobserved combinations would become all-zero columns and count as observed parent configurations",
+                    construct="groupby observed")
+
+
 @rule("C06.parentorder", "one parent-order convention at every producer/consumer of count tables", floor=6)
 def parentorder(rc):
     repo = rc.repo
@@ -121,6 +139,7 @@ def parentorder(rc):
     us = [c for c in repo.calls_in(f) if call_name(c) == "unstack"]
     mi = [c for c in repo.calls_in(f) if call_name(c) == "from_product"]
     rc.ob(f"BaseEstimator.state_counts: groupby {[norm(c.args[0]) for c in gb]}, unstack {[norm(c.args[0]) for c in us]}, column index {[norm(c, 80) for c in mi]}")
+    counts_primitive(rc, repo)
     for c in gb:
         if norm(c.args[0]) not in ("[variable] + parents", "[variable]"):
             rc.fail(f, c, "counts must be grouped by the variable followed by its parents in the given order", construct="groupby order")
